@@ -10,7 +10,29 @@ import ctypes as _real_ct
 import os as _real_os
 import subprocess as _real_subprocess
 import tempfile as _real_tempfile
+import functools
+import io as _real_io
+import threading
 import types
+
+# While a stand-in below is at work on behalf of the code under test, the global
+# hooks (install_global_hooks) let its own calls of os.* through unchanged.
+_tls = threading.local()
+
+
+def _inside():
+    return getattr(_tls, "depth", 0) > 0
+
+
+def _g(fn):
+    @functools.wraps(fn)
+    def guarded(*a, **kw):
+        _tls.depth = getattr(_tls, "depth", 0) + 1
+        try:
+            return fn(*a, **kw)
+        finally:
+            _tls.depth -= 1
+    return guarded
 
 
 class PathProxy(object):
@@ -22,16 +44,19 @@ class PathProxy(object):
     def __getattr__(self, name):
         return getattr(_real_os.path, name)
 
+    @_g
     def exists(self, path):
         r = _real_os.path.exists(path)
         self._w.on_exists(path, r)
         return r
 
+    @_g
     def isfile(self, path):
         r = _real_os.path.isfile(path)
         self._w.on_exists(path, r)
         return r
 
+    @_g
     def getsize(self, path):
         r = _real_os.path.getsize(path)
         self._w.on_exists(path, True)
@@ -76,6 +101,7 @@ class OsProxy(object):
         if callable(val) and not isinstance(val, type):
             w = self._w
 
+            @_g
             def logged(*a, **kw):
                 w.note_syscall("os:" + name)
                 return val(*a, **kw)
@@ -85,15 +111,18 @@ class OsProxy(object):
     def getpid(self):
         return self._w.sim_pid()
 
+    @_g
     def open(self, path, flags, *a, **kw):
         return self._w.track_fd(_real_os.open(path, flags, *a, **kw))
 
+    @_g
     def fdopen(self, fd, *a, **kw):
         f = _real_os.fdopen(fd, *a, **kw)
         if self._w.io_fault("enospc_source_write"):
             return _FailingFile(f)
         return f
 
+    @_g
     def unlink(self, path, *a, **kw):
         r = _real_os.unlink(path, *a, **kw)
         self._w.on_fileop("unlink", path)
@@ -101,6 +130,10 @@ class OsProxy(object):
 
     remove = unlink
 
+    def lstat(self, path, *a, **kw):
+        return self.stat(path, *a, follow_symlinks=False, **kw)
+
+    @_g
     def replace(self, src, dst, *a, **kw):
         if self._w.io_fault("eacces_replace"):
             # Windows refuses to replace a library another process has loaded
@@ -109,6 +142,7 @@ class OsProxy(object):
         self._w.on_fileop("replace", src, dst)
         return r
 
+    @_g
     def rename(self, src, dst, *a, **kw):
         if self._w.io_fault("eacces_replace"):
             raise PermissionError(13, "Permission denied (simulated)", dst)
@@ -116,16 +150,19 @@ class OsProxy(object):
         self._w.on_fileop("rename", src, dst)
         return r
 
+    @_g
     def link(self, src, dst, *a, **kw):
         r = _real_os.link(src, dst, *a, **kw)
         self._w.on_fileop("link", src, dst)
         return r
 
+    @_g
     def symlink(self, src, dst, *a, **kw):
         r = _real_os.symlink(src, dst, *a, **kw)
         self._w.on_fileop("symlink", src, dst)
         return r
 
+    @_g
     def stat(self, path, *a, **kw):
         try:
             r = _real_os.stat(path, *a, **kw)
@@ -135,6 +172,7 @@ class OsProxy(object):
         self._w.on_exists(path, True)
         return r
 
+    @_g
     def access(self, path, *a, **kw):
         r = _real_os.access(path, *a, **kw)
         self._w.on_exists(path, r)
@@ -151,6 +189,7 @@ class TempfileProxy(object):
     def __getattr__(self, name):
         return getattr(_real_tempfile, name)
 
+    @_g
     def mkstemp(self, suffix=None, prefix=None, dir=None, text=False):
         if dir is None:
             dir = self._w.tmp_dir
@@ -162,6 +201,7 @@ class TempfileProxy(object):
         self._w.on_fileop("mkstemp", name)
         return fd, name
 
+    @_g
     def mkdtemp(self, suffix=None, prefix=None, dir=None):
         if self._w.io_fault("enospc_mkdtemp"):
             raise OSError(28, "No space left on device (simulated)")
@@ -174,6 +214,7 @@ class TempfileProxy(object):
     def gettempdir(self):
         return self._w.tmp_dir
 
+    @_g
     def NamedTemporaryFile(self, *a, **kw):
         if kw.get("dir") is None:
             kw["dir"] = self._w.tmp_dir
@@ -368,3 +409,60 @@ def rebind_from_imports(mod, proxies):
 def real_modules():
     return {"os.path": _real_os.path, "os": _real_os, "subprocess": _real_subprocess,
             "tempfile": _real_tempfile, "ctypes": _real_ct}
+
+
+HOOKED_OS = ("stat", "replace", "rename", "link", "symlink", "unlink", "remove", "access")
+
+
+def install_global_hooks(world, os_proxy, owns_path):
+    """Routes that do not go through the module's own `os` name - pathlib.Path
+    methods, os.path functions imported by name, shutil.move ... - end in the real
+    os module.  While a run is in progress these calls, when made by a simulated
+    process on a path inside the run's directory, are handed to the same stand-in
+    (events, pre-emption points, faults); everything else passes through.  Returns
+    the restore function."""
+    saved = {}
+
+    def make(name, real):
+        def hook(*a, **kw):
+            if _inside() or not a or kw.get("dir_fd") is not None:
+                return real(*a, **kw)
+            s = world.sched
+            me = s.current() if s is not None else None
+            if me is None or getattr(me, "kind", None) != "proc":
+                return real(*a, **kw)
+            try:
+                p = _real_os.fspath(a[0])
+            except TypeError:
+                return real(*a, **kw)
+            if not isinstance(p, str) or not owns_path(p):
+                return real(*a, **kw)
+            world.probe("os_call_reached_through_global_hook")
+            rest = [_real_os.fspath(x) if isinstance(x, _real_os.PathLike) else x for x in a[1:]]
+            return getattr(os_proxy, name)(p, *rest, **kw)
+        hook.__name__ = name
+        return hook
+    for name in HOOKED_OS:
+        saved[name] = getattr(_real_os, name)
+        setattr(_real_os, name, make(name, saved[name]))
+    real_open = _real_io.open
+
+    def open_hook(file, *a, **kw):
+        f = real_open(file, *a, **kw)
+        if not _inside() and isinstance(file, (str, _real_os.PathLike)):
+            s = world.sched
+            me = s.current() if s is not None else None
+            if me is not None and getattr(me, "kind", None) == "proc" and owns_path(_real_os.fspath(file)):
+                world.note_syscall("io:open")
+                try:
+                    world.track_fd(f.fileno())
+                except (OSError, ValueError):
+                    pass
+        return f
+    _real_io.open = open_hook
+
+    def restore():
+        for name, val in saved.items():
+            setattr(_real_os, name, val)
+        _real_io.open = real_open
+    return restore
